@@ -1146,7 +1146,12 @@ func (c *Conn) recvPayload(payload rpccp.Payload) (_ capnp.Ptr, locals uintSet, 
 		var err error
 		mtab[i], local, err = c.recvCap(ptab.At(i))
 		if err != nil {
-			releaseList(mtab[:i]).release()
+			// The clients received so far must not be released while c.mu
+			// (and possibly the sender lock) is held: dropping the last
+			// reference to an import sends a Release message.  Leave them
+			// in the message's capability table: the caller releases the
+			// message once it has dropped its locks.
+			payload.Message().CapTable = mtab[:i]
 			return capnp.Ptr{}, nil, annotate(err).errorf("read payload: capability %d", i)
 		}
 		if local {
